@@ -84,7 +84,7 @@ class TaskCtx(object):
 
     # -- proving
     def prove(self, name, obs, replay=None, expect=None, sample=False,
-              use_nf=True, info=None):
+              use_nf=True, info=None, budget_s=None):
         """Discharge a named obligation made of sub-obligations `obs`.
         replay(model, ob) -> dict(reproduced=bool, ...) runs the REAL code."""
         if isinstance(obs, Obligation):
@@ -95,10 +95,16 @@ class TaskCtx(object):
         failing = []
         rep = None
         nq = 0
+        budget = budget_s if budget_s is not None else (
+            240.0 if self.tier == 'quick' else 1800.0)
         for ob in obs:
             nq += 1
             try:
-                r = B.discharge(ob, self.tier, self.seed, use_nf=use_nf)
+                if time.time() - t0 > budget:
+                    r = B.Result('unknown', 'budget', 0.0,
+                                 note='obligation wall budget exhausted')
+                else:
+                    r = B.discharge(ob, self.tier, self.seed, use_nf=use_nf)
             except Exception as e:       # solver crash = unknown
                 r = B.Result('unknown', 'error', 0.0,
                              note='%s: %s' % (type(e).__name__, e))
